@@ -38,6 +38,10 @@ def main():
         except Exception:
             meta = {}
     meta['confirmed'] = res
+    if name.startswith('R'):
+        meta['kind'] = 'harmless'  # a behaviour-preserving refactoring: every check is expected to stay silent
+        meta.setdefault('property', 'none (behaviour-preserving)')
+        meta.setdefault('trigger', 'nothing: behaviour is unchanged')
     meta['caught_by'] = [k for k, v in res['checks'].items() if v['exit'] == 1]
     json.dump(meta, open(os.path.join(dst, 'meta.json'), 'w'), indent=1)
     print(name, 'baseline ok' if res['baseline_130_pass'] else 'BASELINE FAILS', 'caught by', meta['caught_by'])
